@@ -19,6 +19,9 @@ import (
 
 // IEntry is one data entry of an interchange file (values are strings so that malformed numbers can be expressed).
 type IEntry struct {
+	// KeyFmt renders the public key of role Key differently: "" = 0x + lower case, "upper" = 0x + upper case,
+	// "noprefix" = lower case without 0x, "upper-noprefix".
+	KeyFmt string      `json:"key_fmt,omitempty"`
 	Key    int         `json:"key"` // key role, or -1 with RawKey
 	RawKey string      `json:"raw_key,omitempty"`
 	Blocks []string    `json:"blocks,omitempty"`
@@ -74,12 +77,30 @@ func (f IFile) render(pubs []string) []byte {
 		out.Metadata = &meta{"4", rig.GVR}
 	case "otherroot":
 		out.Metadata = &meta{"5", rig.OtherGVR}
+	case "otherroot-lastbyte":
+		out.Metadata = &meta{"5", rig.GVR[:len(rig.GVR)-1] + "4"}
+	case "otherroot-short":
+		out.Metadata = &meta{"5", rig.GVR[:len(rig.GVR)-2]}
+	case "otherroot-empty":
+		out.Metadata = &meta{"5", ""}
+	case "version-empty":
+		out.Metadata = &meta{"", rig.GVR}
+	case "version-05":
+		out.Metadata = &meta{"05", rig.GVR}
 	case "missing":
 	}
 	for _, e := range f.Entries {
 		en := ent{}
 		if e.Key >= 0 {
 			en.PubKey = pubs[e.Key]
+			switch e.KeyFmt {
+			case "upper":
+				en.PubKey = "0x" + strings.ToUpper(strings.TrimPrefix(en.PubKey, "0x"))
+			case "noprefix":
+				en.PubKey = strings.TrimPrefix(en.PubKey, "0x")
+			case "upper-noprefix":
+				en.PubKey = strings.ToUpper(strings.TrimPrefix(en.PubKey, "0x"))
+			}
 		} else {
 			en.PubKey = e.RawKey
 		}
@@ -160,11 +181,15 @@ func c10Files(tier string) []IFile {
 		IFile{Name: "dup:low-then-high", Meta: "ok", Entries: []IEntry{{Key: 0, Blocks: []string{"3"}, Atts: [][2]string{{"1", "4"}}}, {Key: 0, Blocks: []string{"12"}, Atts: [][2]string{{"6", "12"}}}}},
 		IFile{Name: "dup:crossed", Meta: "ok", Entries: []IEntry{{Key: 0, Blocks: []string{"12"}, Atts: [][2]string{{"1", "4"}}}, bEntry, {Key: 0, Blocks: []string{"3"}, Atts: [][2]string{{"6", "12"}}}}},
 		IFile{Name: "empty-data", Meta: "ok"},
+		IFile{Name: "keyfmt:upper", Meta: "ok", Entries: []IEntry{{Key: 0, KeyFmt: "upper", Blocks: []string{"12"}, Atts: [][2]string{{"6", "12"}}}}},
+		IFile{Name: "keyfmt:noprefix", Meta: "ok", Entries: []IEntry{{Key: 0, KeyFmt: "noprefix", Blocks: []string{"12"}, Atts: [][2]string{{"6", "12"}}}}},
+		IFile{Name: "keyfmt:upper-noprefix+dup", Meta: "ok", Entries: []IEntry{{Key: 0, KeyFmt: "upper-noprefix", Blocks: []string{"12"}}, {Key: 0, Atts: [][2]string{{"6", "12"}}}}},
+		IFile{Name: "many-atts", Meta: "ok", Entries: []IEntry{{Key: 0, Atts: [][2]string{{"1", "2"}, {"8", "9"}, {"2", "13"}, {"3", "4"}}, Blocks: []string{"1", "11", "2"}}}},
 		IFile{Name: "only-B", Meta: "ok", Entries: []IEntry{bEntry}},
 	)
 	// Wrong metadata.
 	full := []IEntry{{Key: 0, Blocks: []string{"12"}, Atts: [][2]string{{"6", "12"}}}, bEntry}
-	for _, m := range []string{"version4", "otherroot", "missing"} {
+	for _, m := range []string{"version4", "otherroot", "missing", "otherroot-lastbyte", "otherroot-short", "otherroot-empty", "version-empty", "version-05"} {
 		fs = append(fs, IFile{Name: "meta:" + m, Meta: m, Entries: full})
 	}
 	// Malformed values.
